@@ -54,11 +54,64 @@ def kron_rootinv_noargs(repo):
     raise Untranslatable("KroneckerProductLinearOperator.root_inv_decomposition: super() call with arguments the model does not transcribe")
 
 
+def _forward(repo, rel, cls):
+    p = os.path.join(repo, "linear_operator", "functions", rel)
+    try:
+        tree = ast.parse(open(p).read())
+    except (OSError, SyntaxError) as ex:
+        raise Untranslatable("cannot parse %s: %s" % (rel, ex))
+    return _method(tree, cls, "forward")
+
+
+def _names(node):
+    return {n.id for n in ast.walk(node) if isinstance(n, ast.Name)}
+
+
+def lanczos_jitter_relative(repo):
+    """The tridiagonal jitter of the two Lanczos autograd functions must have the DOCUMENTED form
+         jitter = settings.tridiagonal_jitter.value() * min(diag T)          (relative, per batch member)
+       (`mins` = a `.min(` over the diagonal of t_mat; `jitter_mat` built from the product of the setting and `mins`):
+       this is the jitter term of C06_lanczos_root_is_compression / C06_lanczos_root_relative_jitter.  The functions
+       themselves are oracles of the model, so any other form (e.g. an absolute jitter) is Untranslatable: fail closed."""
+    for rel, cls in (("_root_decomposition.py", "RootDecomposition"), ("_diagonalization.py", "Diagonalization")):
+        f = _forward(repo, rel, cls)
+        assigns = {}
+        for st in ast.walk(f):
+            if isinstance(st, ast.Assign) and len(st.targets) == 1 and isinstance(st.targets[0], ast.Name):
+                assigns.setdefault(st.targets[0].id, []).append(st.value)
+        mins = assigns.get("mins", [])
+        if len(mins) != 1 or "t_mat" not in _names(mins[0]) or not any(
+                isinstance(n, ast.Attribute) and n.attr == "min" for n in ast.walk(mins[0])):
+            raise Untranslatable("%s.forward: `mins` is not the minimum of the diagonal of t_mat" % cls)
+        jm = assigns.get("jitter_mat", [])
+        if len(jm) != 1:
+            raise Untranslatable("%s.forward: expected one assignment to jitter_mat" % cls)
+        src = ast.dump(jm[0])
+        setting = "tridiagonal_jitter" in src or ("jitter_val" in _names(jm[0]) and any(
+            "tridiagonal_jitter" in ast.dump(v) for v in assigns.get("jitter_val", [])))
+        prod = any(isinstance(n, ast.BinOp) and isinstance(n.op, ast.Mult) and "mins" in _names(n)
+                   and ("tridiagonal_jitter" in ast.dump(n) or "jitter_val" in _names(n)) for n in ast.walk(jm[0]))
+        if not (setting and prod):
+            raise Untranslatable("%s.forward: the jitter added to the tridiagonal matrix is not tridiagonal_jitter * min(diag T) "
+                                 "(the documented relative jitter)" % cls)
+    return True
+
+
 def translate(repo):
     """-> (Coq source of gen/SrcFlags.v, dict of flags)"""
     fl = {"kron_rootinv_noargs": kron_rootinv_noargs(repo)}
-    code = ("(* GENERATED by harness/c06_tr.py from linear_operator/operators/kronecker_product_linear_operator.py - do not edit *)\n"
-            "Definition src_kron_rootinv_noargs : bool := %s.\n" % ("true" if fl["kron_rootinv_noargs"] else "false"))
+    try:
+        fl["lanczos_jitter_relative"] = lanczos_jitter_relative(repo)
+    except Untranslatable as ex:
+        # not fatal for the model (the Lanczos functions are oracles): reported by the check, which goes on to search the
+        # grid (SCALE family) for a concrete failing input
+        fl["lanczos_jitter_relative"] = False
+        fl["lanczos_jitter_note"] = str(ex)
+    code = ("(* GENERATED by harness/c06_tr.py from linear_operator/operators/kronecker_product_linear_operator.py and "
+            "linear_operator/functions/_{root_decomposition,diagonalization}.py - do not edit *)\n"
+            "Definition src_kron_rootinv_noargs : bool := %s.\n"
+            "Definition src_lanczos_jitter_relative : bool := %s.\n"
+            % ("true" if fl["kron_rootinv_noargs"] else "false", "true" if fl["lanczos_jitter_relative"] else "false"))
     return code, fl
 
 
